@@ -259,11 +259,11 @@ func compareGenerated(c *core.Ctx, scratch, pattern string, checkedIn []string) 
 // catalogue vs independently parsed OW-SPEC blocks
 
 type specParam struct {
-	name       string
-	dims       []string
-	def        float64
-	hasRange   bool
-	min, max   float64
+	name     string
+	dims     []string
+	def      float64
+	hasRange bool
+	min, max float64
 }
 
 type specModel struct {
@@ -396,59 +396,86 @@ func c09Catalogue(c *core.Ctx) {
 			c.Violate("spec-not-registered", s.name, fmt.Sprintf("OW-SPEC block %s in models/%s has no catalogue entry", s.name, s.file))
 			continue
 		}
-		d := f().Description()
-		c.Count("models_compared", 1)
-		cmpList := func(what string, spec, got []string) {
-			c.Count("catalogue_fields_compared", float64(len(spec)+1))
-			if !equalStrings(spec, got) {
-				c.Violate("description-mismatch", s.name, fmt.Sprintf("%s: spec order %v, Description() %v", what, spec, got), "field", what)
+		// second pass: a caller that edits the Description it was handed (sorts the names, overrides a default) must not
+		// change what the catalogue reports afterwards
+		for pass := 0; pass < 2; pass++ {
+			d := f().Description()
+			if pass == 1 {
+				c.Count("descriptions_rechecked_after_caller_edits", 1)
 			}
-		}
-		cmpList("inputs", s.inputs, d.Inputs)
-		cmpList("states", s.states, d.States)
-		cmpList("outputs", s.outputs, d.Outputs)
-		var pn []string
-		for _, p := range s.params {
-			pn = append(pn, p.name)
-		}
-		var gn []string
-		for _, p := range d.Parameters {
-			gn = append(gn, p.Name)
-		}
-		cmpList("parameters", pn, gn)
-		if len(pn) == len(gn) {
-			dimSet := map[string]bool{}
-			for i, p := range s.params {
-				g := d.Parameters[i]
-				c.Count("catalogue_fields_compared", 3)
-				if p.def != g.Default {
-					c.Violate("description-mismatch", s.name, fmt.Sprintf("parameter %s: spec default %v, Description() default %v", p.name, p.def, g.Default), "field", "default")
+			c.Count("models_compared", 1)
+			cmpList := func(what string, spec, got []string) {
+				c.Count("catalogue_fields_compared", float64(len(spec)+1))
+				if !equalStrings(spec, got) {
+					c.Violate("description-mismatch", s.name, fmt.Sprintf("%s: spec order %v, Description() %v", what, spec, got), "field", what)
 				}
-				if p.min >= 0 || p.hasRange {
-					wantMin, wantMax := p.min, p.max
-					if p.min < 0 && p.max < 0 && !p.hasRange {
-						wantMin, wantMax = g.Range[0], g.Range[1]
+			}
+			cmpList("inputs", s.inputs, d.Inputs)
+			cmpList("states", s.states, d.States)
+			cmpList("outputs", s.outputs, d.Outputs)
+			var pn []string
+			for _, p := range s.params {
+				pn = append(pn, p.name)
+			}
+			var gn []string
+			for _, p := range d.Parameters {
+				gn = append(gn, p.Name)
+			}
+			cmpList("parameters", pn, gn)
+			if len(pn) == len(gn) {
+				dimSet := map[string]bool{}
+				for i, p := range s.params {
+					g := d.Parameters[i]
+					c.Count("catalogue_fields_compared", 3)
+					if p.def != g.Default {
+						c.Violate("description-mismatch", s.name, fmt.Sprintf("parameter %s: spec default %v, Description() default %v", p.name, p.def, g.Default), "field", "default")
 					}
-					if p.hasRange && (wantMin != g.Range[0] || wantMax != g.Range[1]) {
-						c.Violate("description-mismatch", s.name, fmt.Sprintf("parameter %s: spec range [%v,%v], Description() range %v", p.name, wantMin, wantMax, g.Range), "field", "range")
+					if p.min >= 0 || p.hasRange {
+						wantMin, wantMax := p.min, p.max
+						if p.min < 0 && p.max < 0 && !p.hasRange {
+							wantMin, wantMax = g.Range[0], g.Range[1]
+						}
+						if p.hasRange && (wantMin != g.Range[0] || wantMax != g.Range[1]) {
+							c.Violate("description-mismatch", s.name, fmt.Sprintf("parameter %s: spec range [%v,%v], Description() range %v", p.name, wantMin, wantMax, g.Range), "field", "range")
+						}
+					}
+					if !equalStrings(p.dims, g.Dimensions) {
+						c.Violate("description-mismatch", s.name, fmt.Sprintf("parameter %s: spec dimensions %v, Description() dimensions %v", p.name, p.dims, g.Dimensions), "field", "dimensions")
+					}
+					for _, dd := range p.dims {
+						dimSet[dd] = true
 					}
 				}
-				if !equalStrings(p.dims, g.Dimensions) {
-					c.Violate("description-mismatch", s.name, fmt.Sprintf("parameter %s: spec dimensions %v, Description() dimensions %v", p.name, p.dims, g.Dimensions), "field", "dimensions")
+				var wantDims []string
+				for dd := range dimSet {
+					wantDims = append(wantDims, dd)
 				}
-				for _, dd := range p.dims {
-					dimSet[dd] = true
+				sort.Strings(wantDims)
+				gd := append([]string{}, d.Dimensions...)
+				sort.Strings(gd)
+				if !equalStrings(wantDims, gd) {
+					c.Violate("description-mismatch", s.name, fmt.Sprintf("dimensions: spec %v, Description() %v", wantDims, gd), "field", "model-dimensions")
 				}
 			}
-			var wantDims []string
-			for dd := range dimSet {
-				wantDims = append(wantDims, dd)
+			// the caller's edits
+			for _, l := range [][]string{d.Inputs, d.States, d.Outputs, d.Dimensions} {
+				for i, j := 0, len(l)-1; i < j; i, j = i+1, j-1 {
+					l[i], l[j] = l[j], l[i]
+				}
+				if len(l) == 1 {
+					l[0] += "_edited"
+				}
 			}
-			sort.Strings(wantDims)
-			gd := append([]string{}, d.Dimensions...)
-			sort.Strings(gd)
-			if !equalStrings(wantDims, gd) {
-				c.Violate("description-mismatch", s.name, fmt.Sprintf("dimensions: spec %v, Description() %v", wantDims, gd), "field", "model-dimensions")
+			for i := range d.Parameters {
+				d.Parameters[i].Name += "_edited"
+				d.Parameters[i].Default += 1
+				d.Parameters[i].Range[0], d.Parameters[i].Range[1] = -7, -7
+				for k := range d.Parameters[i].Dimensions {
+					d.Parameters[i].Dimensions[k] += "_edited"
+				}
+			}
+			if len(c.Res.Violations) > 0 {
+				break
 			}
 		}
 	}
